@@ -500,7 +500,18 @@ func main() {
 			fi := 0
 			for pi := 0; pi < np; pi++ {
 				for k := 0; k < 2; k++ {
-					w.buildFile(fi, []blockSpec{{part: []string{"pa", "pb", "pc"}[pi], withKey: pi%2 == 0, rows: 1 + (fi % 2), pad: 10}})
+					blocks := []blockSpec{{part: []string{"pa", "pb", "pc"}[pi], withKey: pi%2 == 0, rows: 1 + (fi % 2), pad: 10}}
+					if p%2 == 1 {
+						// ... and a block of a partition no other file has: it is carried over as it is (copied), behind or in
+						// front of the merged one
+						solo := blockSpec{part: fmt.Sprintf("solo%d", fi), withKey: fi%2 == 0, rows: 1 + (fi % 3), pad: 25}
+						if fi%2 == 0 {
+							blocks = append(blocks, solo)
+						} else {
+							blocks = append([]blockSpec{solo}, blocks...)
+						}
+					}
+					w.buildFile(fi, blocks)
 					fi++
 				}
 			}
